@@ -376,8 +376,21 @@ pub fn run(rng: &mut Rng, count: usize, thorough: bool, cfg: &Cfg, out: &mut Out
             if !all && max_defender_product(&af) > 600 {
                 for e in enc_list.iter_mut() { if *e == "exp_co" { *e = "hyb_co"; } }
             }
-            let args = if *q == "SE" { vec![] } else { pick_args(rng, &af, cfg.max_args) };
+            // exhaustive mode: every single argument (and, for lists, every pair); else a drawn list
+            let arg_lists: Vec<Vec<usize>> = if *q == "SE" {
+                vec![vec![]]
+            } else if all {
+                let live: Vec<usize> = af.argument_set().iter().map(|a| *a.label()).collect();
+                let mut v: Vec<Vec<usize>> = live.iter().map(|a| vec![*a]).collect();
+                if cfg.max_args >= 2 {
+                    for a in live.iter() { for b in live.iter() { if a < b { v.push(vec![*a, *b]); } } }
+                }
+                v
+            } else {
+                vec![pick_args(rng, &af, cfg.max_args)]
+            };
             let certs: Vec<bool> = if *q == "SE" { vec![false] } else { cfg.certs.clone() };
+            for args in arg_lists.iter() {
             for enc in enc_list.iter() {
                 for cert in certs.iter() {
                     if cfg.faults {
@@ -398,6 +411,7 @@ pub fn run(rng: &mut Rng, count: usize, thorough: bool, cfg: &Cfg, out: &mut Out
                     emit_case(out, &g, &af, sem, q, *cert, enc, &args, Fault::None);
                     produced += 1;
                 }
+            }
             }
         }
     }
